@@ -303,3 +303,90 @@ def classify_return(fn, defs, v, cl, depth=0):
                 return x
         return a
     return 'an unknown task pointer'
+
+
+# ---------------------------------------------------------------------------------------------
+# K8: aggregator handler completeness
+# ---------------------------------------------------------------------------------------------
+def _is_status_store(fn, e, min_release=True):
+    if not isinstance(e, int):
+        return False
+    op = atomic_op(fn, e)
+    if not op or op['kind'] not in ('store', 'rmw') or last_member(fn, op['obj']) != 'status':
+        return False
+    if min_release and not has_release(op['order'] or 0):
+        return False
+    v = fn.cv(op.get('val', -1))
+    return v is None or v != 0
+
+
+def handler_iterations(fn):
+    """advance assignments `list = list->next...` : [(pos, node, list var id)]"""
+    from engine.rules import assignments
+    out = []
+    for pos, s, l, r in assignments(fn):
+        ln = fn.n(fn.strip(l))
+        if ln.get('k') != 'var':
+            continue
+        has_next = False
+        for x in fn.subtree(r):
+            xn = fn.nodes[x]
+            if xn.get('k') == 'member' and xn['n'] == 'next':
+                base = fn.n(root_of(fn, x))
+                if base.get('k') == 'var' and base.get('v') == ln['v']:
+                    has_next = True
+        if has_next:
+            out.append((pos, s, ln['v'], ln['n']))
+    return out
+
+
+def k8_handler(facts, rep, clause, fn, extra_complete=None, min_release=True, label=None):
+    """every operation taken off the pending list is completed (status stored, non-zero, release) or deferred to a later pass,
+    on every path, before the handler takes the next operation or returns"""
+    from engine.rules import assignments
+    its = handler_iterations(fn)
+    if not its:
+        return 0
+    list_vars = set(v for _, _, v, _ in its)
+    adv_pos = set(p for p, _, _, _ in its)
+    summ = Summaries(facts, max_depth=5)
+
+    def status_pred(f, pos, e):
+        return _is_status_store(f, e, min_release)
+
+    def completes(pos, e):
+        if _is_status_store(fn, e, min_release):
+            return True
+        if extra_complete is not None and extra_complete(fn, pos, e):
+            return True
+        if isinstance(e, int):
+            n = fn.nodes[e]
+            # deferral to a later pass: `other_list = tmp`
+            if n.get('k') == 'binop' and n['op'] == '=':
+                l = fn.n(fn.strip(n['l']))
+                if l.get('k') == 'var' and l.get('v') in list_vars and not any(
+                        fn.nodes[x].get('k') == 'member' and fn.nodes[x]['n'] == 'next' for x in fn.subtree(n['r'])):
+                    return True
+            if n.get('k') == 'call':
+                u = n.get('fn')
+                g = facts.fns.get(u) if u else None
+                if g is not None and not n.get('virt') and g.u != fn.u:
+                    # a helper that receives the operation and completes it on all of its paths
+                    if summ.must(g, 'status', status_pred):
+                        return True
+        return False
+    nbad = 0
+    starts = [(p, 'operation taken at line %s' % fn.n(s).get('ln'), fn.n(s).get('ln')) for p, s, _, _ in its]
+    for b, blk in fn.blocks.items():
+        lab = blk.get('label')
+        if lab and 'catch' in lab:
+            starts.append(((b, -1), 'exception handler at line %s' % fn.nodes[lab['catch']].get('ln'), fn.nodes[lab['catch']].get('ln')))
+    for start, what, ln in starts:
+        reached, ex, par = fn.walk(start, stop_elem=completes)
+        hit_next = [q for q in reached if q in adv_pos and q != start and not completes(q, fn.elems(q[0])[q[1]])]
+        again = (start in reached) if start[1] >= 0 else False
+        ok = not ex and not hit_next and not again
+        rep.ob(clause, 'K8', fn, '%s%s is completed (status stored with release) or deferred on every path' % ((label + ': ') if label else '', what),
+               ok, 'an operation can be dropped without a status: the thread that submitted it spins forever (%s)' %
+               ('handler returns' if ex else 'next operation taken'), ln=ln, key_extra=str(ln))
+    return len(starts)
